@@ -10,6 +10,11 @@ CLAIMED = {
   text='Decides the arithmetic typing core exhaustively over the finite domain the property names (all arithmetic and enum types x bit-field widths x binary operators, plus pointer/null/struct operand classes): integer promotions, usual arithmetic conversions, per-operator result type / operand conversions / constraint diagnostics of mkbinaryexpr, and the scalar descriptor and per-target tables. Typing of arbitrarily nested derived types, unary/conditional operators, literals and compatibility judgements are NOT yet decided.',
   note='Trusts clang 14 front end, lib/eai.py, the oracle functions o_promote/o_common/o_binary in props/c05.py (written from C11, not from type.c). Results are compared modulo the unobservable enum/compatible-integer tie.',
   design='5/C05'),
+ 'C13': dict(
+  technique='abstract interpretation of scan.c:scankind/number/ident with a symbolic input character (finite-domain splitting, re-execution DFS) yielding a decision tree / step tables compared with C11 6.4; static keyword-table checks incl. the bisection verified over the ordering abstraction',
+  text='Decides: (a) the complete first-level decision tree of the scanner - every punctuator spelling, its token kind, maximal munch against every longer punctuator/comment/pp-number continuation, classification of all 257 first characters, literal prefixes, the ".." push-back; (b) the pp-number and identifier continuation sets for every character and exponent state; (c) the keyword table (sorted, spelling->kind vs oracle, nothing extra, binary search correct for every table position and gap, applied in next()). String/char literal and comment scanners, and the character reader (splices), are NOT decided here.',
+  note='Trusts clang 14 front end, lib/eai.py, the models of nextchar/bufadd/ungetc and the ctype models ("C" locale - no setlocale call, rule C20.a), oracle lists PUNCT/KEYWORDS in props/c13.py (C11 6.4.1, 6.4.6, C23, GNU).',
+  design='5/C13'),
  'C01': dict(
   technique='abstract interpretation (partial evaluation of the lowering functions over the static type/operator descriptor domain) + AST table extraction vs C11/QBE oracle tables',
   text='Decides structural clauses only: the instruction-selection, conversion, load/store, truthiness and bit-field shift tables that every compiled program is lowered through are extracted from the current source by an abstract interpreter and compared exhaustively (over the finite descriptor domain) with oracle tables written from C11 and the QBE manual; sibling switches are checked for exhaustiveness. Semantic equivalence of emitted IL for arbitrary programs is NOT decided.',
